@@ -31,6 +31,9 @@ checks["C12"] = dict(cat="exploration", ref="§7 C12", engine="pure", technique=
 checks["C15"] = dict(cat="exploration", ref="§7 C15", engine="pure", technique="deterministic simulation of map iteration order on ValidateCompatibility between generated consumer/producer schema pairs",
    text="RESTRICTED: decided = the verdict of consumer.ValidateCompatibility(producer) does not depend on map iteration order (natural, drawn, reversed, rotated orders on identical, rebuilt, single-feature-mutated and unrelated producers) and a verdict is returned (no panic). Reflexivity, compatibility with a schema rebuilt from its own description, and the must-reject rules are evaluated on the same pairs as side oracles.",
    note="Not decided: termination on recursive schema pairs (a stack overflow there is a function of the pair alone; recursive recipes are excluded from the generator). Must-reject expectations are only attached to mutations of the root object. Trusted: map-order seam coverage as for C12.")
+checks["C13"] = dict(cat="exploration", ref="§7 C13", engine="race", technique="deterministic simulation under the race detector: seeded statement-level schedules of 2-16 goroutines on one brand-new schema, with a scheduler whose hand-off is hidden from the detector (one-way happens-before edge to the scheduler only) and shims that keep real mutex edges; result equality against isolated calls",
+   text="Trials race first-use paths (unit parser caches, lazily decoded defaults, sub-object default propagation, references) of freshly built, freshly rebuilt and struct-mapped schemas, of the package-level unit definitions (one trial per worker process) and of the step-call and ATP session simulations, in a -race build; a violation is a race report whose two accesses are owned by SDK functions, a result that differs from the same call in isolation, or a panic.",
+   note="Trusted: Go's race detector; the happens-before neutrality of the scheduler is self-tested (TestDetectorStillSees: an unsynchronised lazy cache is reported, the same cache under the shim mutex is not). Seam choices come from per-goroutine PRNGs in these trials so that the shared tape is not a hidden synchronisation point. The detector reports a pair of stacks once per process; attribution uses the report counter around each trial.")
 not_yet = {
 }
 na = {
@@ -71,6 +74,7 @@ m = {
    {"name": "hello", "path": "harness/engine_hello.go", "serves_properties": ["C10"], "kind_free_text": "real Client.ReadSchema vs scripted hello with structural mutations; first-use exercise of accepted schemas"},
    {"name": "steps", "path": "harness/engine_steps.go", "serves_properties": ["C11"], "kind_free_text": "concurrent CallStep/CallSignal on the real schema package under the seeded scheduler (no ATP)"},
    {"name": "pure", "path": "harness/engine_pure.go", "serves_properties": ["C12", "C15"], "kind_free_text": "single-goroutine history and map-order simulation on the real schema package"},
+   {"name": "race", "path": "harness/engine_race.go", "serves_properties": ["C13"], "kind_free_text": "concurrent schema operations / step calls / ATP sessions in a -race build under the happens-before-neutral scheduler"},
    {"name": "server", "path": "harness/engine_server.go", "serves_properties": ["C07"], "kind_free_text": "real atp server vs scripted client with byte-offset fault injection on the client stream"},
    {"name": "session", "path": "harness/session.go", "serves_properties": ["C05", "C06"], "kind_free_text": "real atp client <-> real atp server over simulated pipes under the seeded scheduler (zzsimrt) inside a testing/synctest bubble"},
  ],
